@@ -349,6 +349,27 @@ TQuery(e) == /\ (IF Has(e.i) THEN ReadOnly(e.i) ELSE store' = Put(store, e.i, Em
              /\ JudgeQuery(e) = TRUE
              /\ UNCHANGED <<memo12, memo13, poison, docs>>
 
+\* extension (DESIGN section 10): the built-in type tables and the three name lookups of the public API
+JudgeAndroid(e) ==
+  LET Row(nm) == CHOOSE k \in DOMAIN e.table : e.table[k].name = nm
+      Names == {e.table[k].name : k \in DOMAIN e.table}
+      ByName(s) == IF s \in Names THEN <<s>> ELSE <<>>
+      ByQName(s) == LET M == {k \in DOMAIN e.table : e.table[k].qname = s} IN IF M = {} THEN <<>> ELSE <<e.table[CHOOSE k \in M : TRUE].name>>
+      ByType(s) == IF s \in Names THEN <<s>>
+                   ELSE LET M == {k \in DOMAIN e.table : e.table[k].qname = s /\ e.table[k].canq}
+                        IN IF M = {} THEN <<>> ELSE <<e.table[CHOOSE k \in M : TRUE].name>>
+  IN /\ J("X-android", e, "set of built-in names", Names = BuiltinNames /\ Len(e.table) = 4)
+     /\ J("X-android", e, "qualified names used by C05", \A nm \in {"IBinder", "ParcelFileDescriptor", "ParcelableHolder"} :
+                                                          e.table[Row(nm)].qname = BuiltinQN(nm))
+     /\ J("X-android", e, "only ParcelFileDescriptor may be written qualified without an import",
+          \A k \in DOMAIN e.table : e.table[k].canq <=> e.table[k].qname \in QualifiableQN)
+     /\ J("X-android", e, "from_name / from_qualified_name / from_type_name",
+          \A k \in DOMAIN e.probes : /\ e.probes[k].name = ByName(e.probes[k].s)
+                                      /\ e.probes[k].qualified = ByQName(e.probes[k].s)
+                                      /\ e.probes[k].type_name = ByType(e.probes[k].s))
+
+TAndroid(e) == JudgeAndroid(e) = TRUE /\ UNCHANGED <<store, memo12, memo13, poison, docs>>
+
 Queries == {"walk", "filter", "find", "finds", "filters", "lookups", "walktypes", "walkmethods", "walkargs", "key", "roundtrip"}
 
 Hit12(e) == e.ev = "validate" /\ ~poison /\ e.out = "ok" /\ Has(e.i) /\ store[e.i] \in DOMAIN memo12
@@ -375,6 +396,7 @@ TNext ==
               [] e.ev = "remove" -> TRemove(e)
               [] e.ev = "validate" -> TValidate(e)
               [] e.ev \in Queries -> TQuery(e)
+              [] e.ev = "android" -> TAndroid(e)
 
 TInit == store = Empty /\ l = 1 /\ memo12 = Empty /\ memo13 = Empty /\ poison = FALSE /\ stats = [h12 |-> 0, h13 |-> 0, obs |-> 0]
          /\ docs = Empty
